@@ -1,6 +1,5 @@
 """C26 — wallet transactions conserve value and pay only the intended scripts."""
 META = {
-    "disabled": True,
     "level": "model_checking",
     "text": "The four transaction assemblers of the tBTC wallet (deposit sweep, redemption with its fee distribution, moving funds, "
             "moved funds sweep) are deterministic functions of their arguments. The TLA+ module TxAssembly is an integer model of them "
